@@ -45,6 +45,10 @@ type watcher struct {
 	backend BackendShim
 	// stream server
 	watchServer etcdserverpb.Watch_WatchServer
+	// sendMu serialises Send on the stream: the receive loop and one goroutine per watch all answer on it, and
+	// gRPC's SendMsg must not be called from several goroutines at once (its per-stream write quota wakes only ONE
+	// blocked sender when quota comes back, the others sleep on although the consumer has caught up)
+	sendMu sync.Mutex
 	// gRPC server
 	grpcServer *RPCServer
 
@@ -117,6 +121,13 @@ func (s *RPCServer) Watch(ws etcdserverpb.Watch_WatchServer) error {
 	}
 }
 
+// send writes one response to the stream; every answer of this watcher goes through here
+func (w *watcher) send(resp *etcdserverpb.WatchResponse) error {
+	w.sendMu.Lock()
+	defer w.sendMu.Unlock()
+	return w.watchServer.Send(resp)
+}
+
 func (w *watcher) Start(c context.Context, r *etcdserverpb.WatchCreateRequest) {
 	w.Lock()
 	ctx, cancel := context.WithCancel(c)
@@ -142,7 +153,7 @@ func (w *watcher) Start(c context.Context, r *etcdserverpb.WatchCreateRequest) {
 		sub = w.subscribe(ctx, r)
 	}
 
-	if err := w.watchServer.Send(&etcdserverpb.WatchResponse{
+	if err := w.send(&etcdserverpb.WatchResponse{
 		Header:  &etcdserverpb.ResponseHeader{},
 		Created: true,
 		WatchId: id,
@@ -202,7 +213,7 @@ func (w *watcher) Cancel(id int64, err error, compact bool) {
 	if compact {
 		compactRevision = 1
 	}
-	serr := w.watchServer.Send(&etcdserverpb.WatchResponse{
+	serr := w.send(&etcdserverpb.WatchResponse{
 		Header:          &etcdserverpb.ResponseHeader{},
 		Canceled:        true,
 		CancelReason:    "watch closed",
@@ -278,7 +289,7 @@ func (w *watcher) List(ctx context.Context, id int64, r *etcdserverpb.WatchCreat
 		}
 		w.metricCli.EmitCounter("watch.list_stream.push", len(response.Events))
 		w.metricCli.EmitHistogram("watch.list_stream.push.size", response.Size())
-		if err := w.watchServer.Send(response); err != nil {
+		if err := w.send(response); err != nil {
 			klog.ErrorS(err, "[range stream] send response with header failed",
 				"watcher", w.id, "watch", id, "key", r.Key, "end", r.RangeEnd, "rev", r.StartRevision*-1, "respRev", revision)
 			w.metricCli.EmitCounter("watch.list_stream.push.err", 1)
@@ -349,7 +360,7 @@ func (w *watcher) Watch(ctx context.Context, id int64, r *etcdserverpb.WatchCrea
 		}
 		w.metricCli.EmitGauge("watch.watch_stream.push", watchResponse.Header.Revision)
 		w.metricCli.EmitHistogram("watch.watch_stream.push.size", watchResponse.Size())
-		if sendErr = w.watchServer.Send(watchResponse); sendErr != nil {
+		if sendErr = w.send(watchResponse); sendErr != nil {
 			w.metricCli.EmitCounter("watch.watch_stream.push.err", 1)
 			klog.ErrorS(sendErr, "[watch stream] watch send err, cancel", "watcher", w.id, "watch", id)
 			w.Cancel(id, sendErr, false)
